@@ -77,7 +77,7 @@ def write_if_changed(path, content):
 
 def coq_files():
     fs = []
-    for d in ("Base", "Gen", "Model", "Proofs", "Props"):
+    for d in ("Base", "Gen", "Model", "Proofs", "Props", "Tie"):
         fs += sorted(glob.glob(os.path.join(COQ, d, "*.v")))
     return [os.path.relpath(f, COQ) for f in fs]
 
@@ -285,7 +285,9 @@ def generic_check(cfg, argv):
 
     # 1-2: Coq
     props_vo = cfg["props"][:-2] + ".vo"
-    ok, out = coq_build([props_vo] + cfg.get("coq_targets", []))
+    tie = "Tie/%s.v" % prop          # optional: equates the model's literals with Gen/Consts.v (regenerated from /repo)
+    tie_targets = [tie[:-2] + ".vo"] if os.path.exists(os.path.join(COQ, tie)) else []
+    ok, out = coq_build([props_vo] + tie_targets + cfg.get("coq_targets", []))
     hits = audit_sources()
     rep = {"theorems": [], "closed": [], "axioms": {}, "problems": [], "compile_ok": False}
     proof_broken = None
